@@ -80,3 +80,44 @@ def selected_set(db_old, query, measurement, name="Asel"):
     i = z3.Int(fresh_name("i"))
     body = z3.Select(A, i) == z3.And(0 <= i, i < l_len(items), selm(measurement, dec(l_at(items, i))), sem(query.t, dec(l_at(items, i))))
     return Val(SInt, A), [forall([i], body, patterns=[z3.Select(A, i), l_at(items, i)])]
+
+
+def count_lemmas():
+    """Monotonicity of the counting function (DESIGN 3.6). Proved by induction in
+    props/lemmas (base + step obligations); used here as axioms."""
+    A = z3.Const("ax_A", sort_of(SInt))
+    a, b, i = z3.Int("ax_a"), z3.Int("ax_b"), z3.Int("ax_i2")
+    return [
+        forall([A, a, b], z3.Implies(z3.And(0 <= a, a <= b), cnt(A, a) <= cnt(A, b)), patterns=[z3.MultiPattern(cnt(A, a), cnt(A, b))]),
+        forall([A, i, b], z3.Implies(z3.And(0 <= i, i < b, z3.Select(A, i)), cnt(A, i) < cnt(A, b)), patterns=[z3.MultiPattern(z3.Select(A, i), cnt(A, b))]),
+        forall([A, a], z3.Implies(0 <= a, z3.And(0 <= cnt(A, a), cnt(A, a) <= a)), patterns=[cnt(A, a)]),
+    ]
+
+
+S.THEORIES["count_lemmas"] = count_lemmas()
+
+
+def enumerates(R, src, A, items, n_R=None):
+    """R lists the decoded items at the positions of A exactly once each: src(a) is the
+    storage position of R[a]."""
+    a, b, i = z3.Int(fresh_name("a")), z3.Int(fresh_name("b")), z3.Int(fresh_name("i"))
+    nR = l_len(R) if n_R is None else n_R
+    return [
+        ("elements_are_selected", forall([a], z3.Implies(z3.And(0 <= a, a < nR), z3.And(z3.Select(A, src(a)), l_at(R, a) == dec(l_at(items, src(a))))),
+                                         patterns=[l_at(R, a), src(a)])),
+        ("no_duplicates", forall([a, b], z3.Implies(z3.And(0 <= a, a < b, b < nR), src(a) != src(b)), patterns=[z3.MultiPattern(src(a), src(b))])),
+        ("every_selected_listed", forall([i], z3.Implies(z3.And(z3.Select(A, i), S.Tr(i)), z3.Exists([a], z3.And(0 <= a, a < nR, src(a) == i))),
+                                         patterns=[z3.Select(A, i)])),
+    ]
+
+
+def in_storage_order(src, nR):
+    a, b = z3.Int(fresh_name("a")), z3.Int(fresh_name("b"))
+    return forall([a, b], z3.Implies(z3.And(0 <= a, a < b, b < nR), src(a) < src(b)), patterns=[z3.MultiPattern(src(a), src(b))])
+
+
+def in_stable_time_order(R, src, nR):
+    a, b = z3.Int(fresh_name("a")), z3.Int(fresh_name("b"))
+    ta, tb = ts(l_at(R, a)), ts(l_at(R, b))
+    return forall([a, b], z3.Implies(z3.And(0 <= a, a < b, b < nR), z3.And(ta <= tb, z3.Implies(ta == tb, src(a) < src(b)))),
+                  patterns=[z3.MultiPattern(l_at(R, a), l_at(R, b))])
